@@ -25,6 +25,7 @@ PREFIXES = ['/p', '/q/', '/', '/p/r']
 
 
 TRACE = []
+SEEN_APPS = []
 _TRACERS = {}
 
 
@@ -42,8 +43,9 @@ def tracer(mwid):
         _TRACERS[k] = type('C11MW_' + k.replace('.', '_'), (Middleware,), {})
     inst = _TRACERS[k]()
 
-    def request(next, _id=mwid):
+    def request(next, _application, _id=mwid):
         TRACE.append(_id)
+        SEEN_APPS.append(_application)
         return next()
     inst.request = request
     return inst
@@ -115,7 +117,13 @@ class Sim(object):
         a = self.apps[i]
         exp = M.dispatch(a['table'], path, method)
         del TRACE[:]
+        del SEEN_APPS[:]
         r = call(a['app'], path, method)
+        if any(x is not a['app'] for x in SEEN_APPS):
+            # the `_application` built-in is the application that is serving the request, whatever else its routes were bound into
+            others = [j for j, b in enumerate(self.apps) if any(x is b['app'] for x in SEEN_APPS)]
+            self.ctx.mismatch('application-identity', '%s %s on application #%d: a middleware was handed another application as `_application` (applications %r)'
+                              % (method, path, i, others))
         want_trace = expected_trace(a['table'], path, method, a.get('mw'))
         if list(TRACE) != want_trace and r.exc is None:
             self.ctx.mismatch('middleware-chain-changed', '%s %s on application #%d ran middlewares %r, model %r'
